@@ -428,6 +428,44 @@ func runC05(ctx *Ctx) {
 		}
 	}
 	c05Emit(ctx, specs, fmt.Sprintf("mode=%d", mode))
+	// second cases, chosen by the case index alone (no draw precedes the ones above)
+	switch ctx.Idx % 10 {
+	case 3:
+		// the same tuple over a header-only base: a table with no row has no block and an empty table index
+		c05Emit(ctx, c05OverEmptyBase(specs), fmt.Sprintf("mode=%d", mode), "empty-base")
+	case 4:
+		// what `wrgl merge` delivers (--no-gui / --no-commit / commit), also with an object missing
+		if j := ctx.Idx / 10; !ctx.Thorough() || j%4 == 0 {
+			if ctx.Thorough() {
+				j /= 4
+			}
+			runC05Fault(ctx, j)
+		}
+	}
+}
+
+// c05OverEmptyBase re-bases a tuple on the header-only table: every branch keeps the rows it added or
+// edited (now all additions: the same key in two branches is the same addition or a conflict), a
+// branch equal to the base becomes header-only as well (merge(base; X, base) = X), equal branches stay equal.
+func c05OverEmptyBase(specs []*TableSpec) []*TableSpec {
+	base := specs[0]
+	inBase := map[string]bool{}
+	for _, row := range base.Rows {
+		inBase[fmt.Sprintf("%q", row)] = true
+	}
+	out := []*TableSpec{{Columns: base.Columns, PK: base.PK}}
+	for _, s := range specs[1:] {
+		b := &TableSpec{Columns: s.Columns, PK: s.PK}
+		same := fmt.Sprint(s.Columns) == fmt.Sprint(base.Columns)
+		for _, row := range s.Rows {
+			if same && inBase[fmt.Sprintf("%q", row)] {
+				continue
+			}
+			b.Rows = append(b.Rows, row)
+		}
+		out = append(out, b)
+	}
+	return out
 }
 
 func corpusC05(ctx *Ctx, op string, raw json.RawMessage) {
@@ -442,6 +480,14 @@ func corpusC05(ctx *Ctx, op string, raw json.RawMessage) {
 	var in c05Input
 	if err := json.Unmarshal(raw, &in); err != nil {
 		panic(err)
+	}
+	if op == "merge-cli-deliver" {
+		var f c05FInput
+		if err := json.Unmarshal(raw, &f); err != nil {
+			panic(err)
+		}
+		c05FEmit(ctx, &f, "corpus")
+		return
 	}
 	if op == "merge-cli" {
 		if len(in.Specs) == 3 {
